@@ -832,3 +832,82 @@ def r12(R):
                             key='data record written but not indexed')
     R.require(n >= 2, 'expected writePackedDataRecord and PackCopier.copy to '
               'write data-record headers; found %d' % n)
+
+
+# ------------------------------------------------------------------ C09.R13
+@rule('C09.R13', 'an index file that carries no transaction id (repozo saves '
+      'such files; so did older versions) is still judged by the sanity '
+      'check alone: the id comparison rejects an index only when the file '
+      'HAS an id', props=['C18'], min_instances=1)
+def r13(R):
+    cls = R.prog.cls(FS)
+    f = R.method(cls, '_restore_index')
+    g, b, F = R.cfg(f, cls, max_depth=0)
+    seen = [0]
+
+    def saved_tid(e, node):
+        """`info.get('tid')` / `info['tid']`, directly or through a local"""
+        from ..twopc import resolve_local
+        e = resolve_local(e, F, node.frame)
+        if isinstance(e, ast.Call) and isinstance(e.func, ast.Attribute) and \
+                e.func.attr == 'get' and e.args and isinstance(
+                    e.args[0], ast.Constant) and e.args[0].value == 'tid':
+            return True
+        return isinstance(e, ast.Subscript) and isinstance(
+            e.slice, ast.Constant) and e.slice.value == 'tid'
+
+    def edge(node, st, lab, tgt):
+        if node.kind == 'test' and lab in ('T', 'F'):
+            for e, truth in implied_atoms(node.ast, lab):
+                if isinstance(e, ast.Compare) and len(e.ops) == 1 and \
+                        isinstance(e.comparators[0], ast.Constant) and \
+                        e.comparators[0].value is None and \
+                        saved_tid(e.left, node) and \
+                        isinstance(e.ops[0], ast.IsNot) == truth:
+                    return True
+                if saved_tid(e, node) and truth:
+                    return True
+                if isinstance(e, ast.Compare) and len(e.ops) == 1 and \
+                        isinstance(e.ops[0], (ast.In, ast.NotIn)) and \
+                        isinstance(e.left, ast.Constant) and \
+                        e.left.value == 'tid' and \
+                        isinstance(e.ops[0], ast.In) == truth:
+                    return True
+                # the comparison itself, taken as "differs"
+                if not st and isinstance(e, ast.Compare) and \
+                        len(e.ops) == 1 and isinstance(
+                            e.ops[0], (ast.NotEq, ast.Eq)) and (
+                            saved_tid(e.left, node) or
+                            saved_tid(e.comparators[0], node)) and \
+                        isinstance(e.ops[0], ast.NotEq) == truth:
+                    return 'rejects-without-id'
+        return st
+
+    def at(node, st):
+        if node.kind == 'test':
+            for c in ast.walk(node.ast):
+                if isinstance(c, ast.Compare) and len(c.ops) == 1 and \
+                        isinstance(c.ops[0], (ast.NotEq, ast.Eq)) and (
+                            saved_tid(c.left, node) or
+                            saved_tid(c.comparators[0], node)):
+                    seen[0] += 1
+        if st == 'rejects-without-id':
+            return Violation(
+                '_restore_index holds the id saved in the index file '
+                'against the data file without having established that '
+                'the file HAS one: an index without id -- every index '
+                'repozo saves next to a backup, every index of an older '
+                'version -- differs from any id and is thrown away; the '
+                'recovered database is opened by a full scan, "together '
+                'with a usable index" is gone (a log line is the only '
+                'symptom)')
+        return st
+
+    vs, stats = explore(g, False, at=at, edge=edge)
+    R.count(stats)
+    R.instance('FileStorage._restore_index', id_comparisons=seen[0])
+    R.require(seen[0] >= 1 or vs, '_restore_index no longer compares the '
+              'saved transaction id')
+    for v in vs[:1]:
+        R.violation(v.node, v.message, g, v.path,
+                    key='index without id rejected by the id comparison')
